@@ -2,7 +2,7 @@
    An id is 8 bytes: the issue time (whole seconds, u32, native = little endian byte order) and
    the first 4 bytes of a keyed BLAKE3 hash of (those 4 bytes ++ the octets of the source IP).
    The keyed hash is a Section variable: every theorem holds for ANY function. *)
-From Aquatic Require Export Outcome.
+From Aquatic Require Export Outcome Bytes.
 Local Open Scope N_scope.
 
 Definition le32 (n : N) : list N :=
@@ -16,13 +16,6 @@ Definition u32_of (bs : list N) : N :=
 
 Definition two32 : N := 4294967296.
 Definition two64 : N := 18446744073709551616.
-
-Fixpoint bytes_eqb (a b : list N) : bool :=
-  match a, b with
-  | [], [] => true
-  | x :: a', y :: b' => N.eqb x y && bytes_eqb a' b'
-  | _, _ => false
-  end.
 
 Section Validator.
   (* keyed BLAKE3 in XOF mode, first 32 bits of output, as a number *)
